@@ -154,7 +154,10 @@ where
         rep.cmp("from_bytes", &describe(bytes), &fb, &mclass);
         if let (Some(_), Some(h)) = (&p, handle(&mfb)) {
             rep.cmp("verify", &describe(bytes), &v, &m.verify(cv, &h, &qh, c.pk, c.label));
-            rep.cmp("decrypt", &describe(bytes), &d, &m.decrypt(cv, &h, &qh, c.sk, c.label));
+            // a decryption that scans all slots costs the model seconds: contexts are sampled
+            if !tag.starts_with("context-") || tag.ends_with(":Q+G") || tag.ends_with(":empty") || tag.contains("key") || tag.contains("reframed") {
+                rep.cmp("decrypt", &describe(bytes), &d, &m.decrypt(cv, &h, &qh, c.sk, c.label));
+            }
         }
         m.reset();
     } else {
@@ -168,8 +171,8 @@ where
         let _ = std::fs::write(format!("{}/{name}", rep_dir()), hex::encode(bytes));
         rep.oracle.push(format!("{what}: from_bytes={fb} verify={v} decrypt=[{d}] :: {} input_file={name}", describe(bytes)));
     };
-    if v == "V" {
-        // accepted => decrypt returns the discrete logarithm of Q
+    if v == "V" && c.pk == c.sk {
+        // accepted => decrypt (with the matching private key) returns the discrete logarithm of Q
         let ok = match d.strip_prefix("V ") {
             Some(y) => G::generator() * sc_of_hex::<G>(y) == c.q,
             None => false,
@@ -475,10 +478,19 @@ where
         eval(rep, m, &format!("adv-swapped-ciphertexts:slot={j}"), &build_wire(&w), &ctx, j < 1, &Expect::Reject, log);
         // (f) undecodable commitment
         let mut w = w0.clone();
-        w.slots[j].g_r = if G::BE { let mut b = w.slots[j].g_r.clone(); b[0] = 5; b } else { let mut b = vec![0u8; 32]; b[0] = 2; b };
+        w.slots[j].g_r = if G::BE { let mut b = w.slots[j].g_r.clone(); b[0] = 7; b } else { let mut b = vec![0u8; 32]; b[0] = 2; b };
         let undec = pt_of_bytes::<G>(&w.slots[j].g_r).is_none();
         reopen::<G>(&mut w, &h, &qb, &label);
         eval(rep, m, &format!("adv-bad-point:slot={j}:undecodable={undec}"), &build_wire(&w), &ctx, j < 2, &Expect::Reject, log);
+        if G::BE {
+            // SEC1 "compact" tag 0x05: k256's GroupEncoding::from_bytes accepts it and picks one of the two points with this
+            // x coordinate; the proof is then either a valid proof with another encoding of the same commitment or has
+            // a wrong commitment -- only soundness and agreement with the model are demanded
+            let mut w = w0.clone();
+            w.slots[j].g_r[0] = 5;
+            reopen::<G>(&mut w, &h, &qb, &label);
+            eval(rep, m, &format!("adv-compact-point:slot={j}"), &build_wire(&w), &ctx, j < 2, &Expect::Any, log);
+        }
         // (g) non-canonical opened scalar: from_bytes must refuse
         let mut w = w0.clone();
         w.scalars[j] = if G::BE { G::order().to_bytes_be() } else { G::order().to_bytes_le() };
